@@ -1,31 +1,46 @@
 package main
 
 import (
+	stdjson "encoding/json"
 	"fmt"
-	"reflect"
+	"strconv"
+	"time"
 
-	"github.com/segmentio/encoding/thrift"
-	"verifharness/core"
-	"verifharness/gen/ttypes"
+	"github.com/segmentio/encoding/json"
 )
 
-type inner struct {
-	X int64  `thrift:"1"`
-	W string `thrift:"5,required"`
+type EInt int
+
+func (e EInt) MarshalJSON() ([]byte, error) { return []byte(`"e` + strconv.Itoa(int(e)) + `"`), nil }
+
+type S struct {
+	*EInt
+	Z int
 }
-type EmbUnexp struct {
-	inner
-	Y string `thrift:"2"`
+type S2 struct {
+	P *EInt
+}
+
+func try(name string, f func() ([]byte, error)) {
+	defer func() {
+		if r := recover(); r != nil {
+			fmt.Println(name, "PANIC", r)
+		}
+	}()
+	b, err := f()
+	fmt.Println(name, string(b), err)
 }
 
 func main() {
-	f := &ttypes.Filler{R: core.NewRand(3)}
-	t := reflect.TypeOf(EmbUnexp{})
-	v := f.NewValue(t)
-	fmt.Printf("%+v\n", v.Interface())
-	b, err := thrift.Marshal(&thrift.CompactProtocol{}, v.Interface())
-	fmt.Printf("% x %v\n", b, err)
-	out := reflect.New(t)
-	err = thrift.Unmarshal(&thrift.CompactProtocol{}, b, out.Interface())
-	fmt.Printf("%+v %v\n", out.Elem().Interface(), err)
+	try("std S", func() ([]byte, error) { return stdjson.Marshal(S{}) })
+	try("pkg S", func() ([]byte, error) { return json.Marshal(S{}) })
+	try("std S2", func() ([]byte, error) { return stdjson.Marshal(S2{}) })
+	try("pkg S2", func() ([]byte, error) { return json.Marshal(S2{}) })
+	var m1, m2 map[time.Time]string
+	in := []byte(`{"0000-01-01T00:00:00Z":"x"}`)
+	fmt.Println("std", stdjson.Unmarshal(in, &m1), m1)
+	fmt.Println("pkg", json.Unmarshal(in, &m2), m2)
+	var t1, t2 time.Time
+	fmt.Println("std", stdjson.Unmarshal([]byte(`"0000-01-01T00:00:00Z"`), &t1), t1)
+	fmt.Println("pkg", json.Unmarshal([]byte(`"0000-01-01T00:00:00Z"`), &t2), t2)
 }
